@@ -1,5 +1,6 @@
 import OSProofs.Props.C11
 import OSProofs.Props.C11b
+import OSProofs.CodeShaped
 #print axioms OS.C11_ranks_length
 #print axioms OS.C11_rankData_range
 #print axioms OS.C11_rankData_strict
@@ -28,3 +29,4 @@ import OSProofs.Props.C11b
 #print axioms OS.C11_sum_one
 #print axioms OS.C11_two_team_sum
 #print axioms OS.C11_two_team_sum_gt_one
+#print axioms OS.rankDataCode_eq
